@@ -122,6 +122,13 @@ def build_conn(pre, cls=RecConn):
     c = cls(FIXProtocol44(), pre.get("sender", "S"), pre.get("target", "T"), j, "localhost", 1,
             heartbeat_period=pre.get("H", 30))
     c._rec_init()
+    orig_persist = j.persist_msg
+
+    def rec_persist(msg, session, direction):
+        r = orig_persist(msg, session, direction)
+        c.ops.append("persist:" + direction.name)  # recorded once it has committed
+        return r
+    j.persist_msg = rec_persist
     c._connection_state = ConnectionState(pre["st"])
     c._connection_role = ConnectionRole(pre.get("role", 0))
     c._session.next_num_out = pre["nout"]
